@@ -26,7 +26,10 @@ def make(ck, rnd, n, pid=PID):
         # with memory reuse only ports are observable: deeper circuits, so that released memory is actually handed out again
         c = gen.parity_circuit(rnd) if rnd.random() < 0.2 else gen.gen_circuit(rnd, max_gates=ck.pick(16 if reuse else 8, 20 if reuse else 14), max_ff=2, kinds=['XOR2', 'XNOR2', 'XOR3', 'XNOR3', 'XOR4', 'BUF1'] if xorish else None)
         nl = len(c.lines)
+        cls = rnd.choice([WaveSim, WaveSimCuda])
         lanes = rnd.choice([1, 2, 3, 5])
+        if cls is WaveSimCuda and rnd.random() < 0.1:
+            lanes = rnd.choice([20, 40, 64])      # batches beyond one block of the (mock) GPU launcher
         offgrid = rnd.random() < 0.25
         if offgrid:       # SDF-like values, not on the grid: only counts and kinds of entries are meaningful
             d = np.array([[[[rnd.choice([0.0, 0.013, 0.37, 1.0, 2.61]) for _ in range(2)] for _ in range(2)] for _ in range(nl)]], dtype=np.float32)
@@ -37,7 +40,6 @@ def make(ck, rnd, n, pid=PID):
                            [4 if x < len(c.s_nodes) else 16 for x in range(nl + 3)]])
         via_s = rnd.random() < 0.3         # stimulus through s[0..2] + s_to_c() instead of waveforms written into the input slots
         inw = wrec.rand_inputs(rnd, c, lanes, multi=not via_s)
-        cls = rnd.choice([WaveSim, WaveSimCuda])
         if strip and not offgrid:
             for f in c.forks.values():
                 for l in f.ins:
